@@ -2,6 +2,8 @@ import SSV.Proofs.PacketRelay
 import SSV.Proofs.PacketSSDown
 import SSV.Proofs.PacketLimit
 import SSV.Proofs.PacketHistory
+import SSV.Proofs.PacketHistoryDown
+import SSV.Proofs.PacketUsers
 /-
 C05 — UDP packets survive pack/unpack unchanged and never exceed the path MTU.
 Property theorems only; helper lemmas are in SSV/Proofs/Packet*.lean. The model (SSV/Model/Packet.lean,
@@ -69,6 +71,25 @@ theorem roundtrip_ss2022_up (c : Crypto) (L : c.Laws) (userBlock aeadKey : Bytes
       u.buf.length = b.length ∧ u.buf.take r.packetStart.toNat = r.buf.take r.packetStart.toNat ∧
       u.buf.drop (r.packetStart + r.packetLen).toNat = r.buf.drop (r.packetStart + r.packetLen).toNat :=
   ss_roundtrip_up c L userBlock aeadKey eih mps pol b a ps pl rand ts sid pid now r ha hts hsid hpid hh hnow h
+
+/-- roundtrip_ss2022, client → MULTI-USER server (the real server path with one identity layer): the server knows only
+the iPSK block key `ik` and the user map `users` = (PSK hash, user PSK). It decrypts the separate header and the
+identity header with `ik`, XORs, looks the hash up, derives the session key of THAT user from the client session id
+(`kdf psk sid`) and unpacks. Hypothesis on the user set, stated explicitly: the client's user `(hu, pu)` is in the
+map and every entry with hash `hu` carries the PSK `pu` (hash-injectivity on the user set: two users with the same
+truncated BLAKE3 hash are indistinguishable to the server). Any number and order of other users. -/
+theorem roundtrip_ss2022_up_multiuser (c : Crypto) (L : c.Laws) (kdf : Bytes → Bytes → Bytes) (userBlock ik hu pu : Bytes)
+    (users : List (Bytes × Bytes)) (mps : Int) (pol : Policy) (b : Bytes) (a : Addr) (ps pl rand : Nat)
+    (ts sid pid : Bytes) (now : Int) (r : Packed)
+    (ha : a.wf) (hts : ts.length = 8) (hsid : sid.length = 8) (hpid : pid.length = 8) (hhu : hu.length = 16)
+    (hnow : tsOk ts now = true)
+    (hmem : (hu, pu) ∈ users) (hinj : ∀ u ∈ users, u.1 = hu → u.2 = pu)
+    (h : ssClientPack c userBlock (kdf pu sid) [(ik, hu)] mps pol b a ps pl rand ts sid pid = .ok r) :
+    ∃ u, ssServerUnpackMU c kdf ik users now r.buf r.packetStart.toNat r.packetLen.toNat = .ok u ∧
+      u.addr = a.norm ∧ u.payloadStart = ps ∧ u.payloadLen = pl ∧ sub u.buf ps pl = sub b ps pl ∧
+      u.buf.length = b.length ∧ u.buf.take r.packetStart.toNat = r.buf.take r.packetStart.toNat ∧
+      u.buf.drop (r.packetStart + r.packetLen).toNat = r.buf.drop (r.packetStart + r.packetLen).toNat :=
+  ss_roundtrip_up_multiuser c L kdf userBlock ik hu pu users mps pol b a ps pl rand ts sid pid now r ha hts hsid hpid hhu hnow hmem hinj h
 
 /-- roundtrip_ss2022, server → client: a fresh client unpacker (first packet of the server session), same block
 and session key, its own session id in the header, clock within `MaxEpochDiff`. -/
@@ -242,6 +263,35 @@ theorem roundtrip_history_direct (mtu : Int) (steps : List DirectStep) (h : ∀ 
     DirectSound mtu [] steps (directHist updateDomainIPCacheProg mtu ⟨[], none⟩ steps) :=
   directHist_sound mtu steps [] ⟨[], none⟩ (Or.inl rfl) h
 
+/-- roundtrip_history_none_down / _socks5_down: every sequence of replies through one server packer and one client
+unpacker (which keeps no per-packet state: its server address is fixed) over one reused buffer -/
+theorem roundtrip_history_plain_down (hdr3 : Bool) (limit : Int) (server pktSrc : AddrPort) (hfrom : mappedEqual pktSrc server = true)
+    (steps : List PlainDownStep) (b : Bytes) (h : ∀ x ∈ steps, x.src.wf ∧ x.ps + x.payload.length ≤ b.length) :
+    PlainDownDelivered steps (plainDownHist hdr3 limit server pktSrc b steps) :=
+  plainDownHist_spec hdr3 limit server pktSrc hfrom steps b h
+
+/-- roundtrip_history_ss2022_down: every sequence of replies of ONE server session (distinct packet ids, each with
+its own padding draw and timestamp) through ONE `ShadowPacketClientUnpacker` with its per-session state (current /
+old server session, the ids delivered in each, the one-minute rule), starting fresh or already following this
+server session, over one reused buffer: every reply comes out as (norm source, payload) or is refused by the packer.
+(`ssClientUnpackS` keeps the filters as sets of delivered ids; that the real filter refuses nothing newer than what
+it has seen is C04's theorem.) -/
+theorem roundtrip_history_ss2022_down (p : SSDownPair) (hp : p.good) (steps : List SSDownStep) (b : Bytes)
+    (h : ∀ x ∈ steps, x.good b.length) (hnd : (steps.map (·.spid)).Nodup) :
+    SSDownDelivered steps (ssDownHist p ({}, b) steps) :=
+  ssDownHist_spec p hp steps [] {} b (Or.inl ⟨rfl, rfl, rfl⟩) h hnd (fun _ _ hm => by cases hm)
+
+/-- the session rule the client unpacker applies: a second NEW server session less than a minute after the
+previous change is refused (`ErrTooManyServerSessions`), not delivered -/
+theorem client_unpacker_refuses_fast_session_change (c : Crypto) (block : Bytes) (keyOf : Bytes → Bytes) (csid : Bytes) (now t : Int)
+    (st : CUState) (b : Bytes) (q n : Nat)
+    (hsize : cUnpackTooSmall n = false) (h1 : sliceOk b q (cUnpackMessageHeaderStart q)) (h2 : sliceOk b (cUnpackMessageHeaderStart q) (q + n))
+    (hcur : st.cur ≠ some ((c.dec block (sub b q 16)).take 8)) (hold : st.old ≠ some ((c.dec block (sub b q 16)).take 8))
+    (hseen : st.oldLastSeen = some t) (hfast : now - t < 60) :
+    ssClientUnpackS c block keyOf csid now st b q n = (st, .err .tooManySessions) := by
+  unfold ssClientUnpackS
+  simp [hsize, h1, h2, hcur, hold, hseen, hfast]
+
 /-- why `cachedDomain` must be assigned only after a successful resolution: with the assignment moved before
 `ResolveIP`, the history  a.test → 1.1.1.1 ; b.test → resolution fails ; b.test  packs the third packet without
 error, addressed to a.test's address. -/
@@ -303,6 +353,10 @@ example : tsOk [0, 0, 0, 0, 0x66, 0xf0, 0xf0, 0xf0] 1727066352 = true := by deci
 example : (SSPair.mk toyCrypto [1] [2] [] 1452 .padAll [0, 0, 0, 0, 0, 0, 0, 1]).good := ⟨toyCrypto_laws, rfl, by simp⟩
 example : (SSStep.mk (.dom [0x61] 53) 40 [7, 7] 3 [0, 0, 0, 0, 0x66, 0xf0, 0xf0, 0xf0] [0, 0, 0, 0, 0, 0, 0, 2] 1727066352).good 100 :=
   ⟨by decide, by decide, rfl, rfl, by decide⟩
+example : (SSDownPair.mk toyCrypto [1] (fun s => s) .padAll 1452 [0, 0, 0, 0, 0, 0, 0, 1] [0, 0, 0, 0, 0, 0, 0, 9]).good := ⟨toyCrypto_laws, rfl, rfl⟩
+/-- the user-set hypothesis of the multi-user theorem is satisfiable with several users -/
+example : let users : List (Bytes × Bytes) := [([1], [10]), ([2], [20]), ([3], [30])]
+    ([2], [20]) ∈ users ∧ ∀ u ∈ users, u.1 = [2] → u.2 = [20] := by decide
 example : (ServerU.direct (.dom [0x61] 53)).ok := ⟨by decide, by simp⟩
 example : (ServerP.direct (.ip ⟨.v4 [1, 2, 3, 4], 53⟩) true).ok := fun _ => ⟨_, rfl⟩
 example : (ClientU.ss toyCrypto [1] [2] [0, 0, 0, 0, 0, 0, 0, 0] 0).ok := toyCrypto_laws
@@ -320,6 +374,7 @@ end SSV.C05
 #print axioms SSV.C05.roundtrip_plain_up
 #print axioms SSV.C05.roundtrip_plain_down
 #print axioms SSV.C05.roundtrip_ss2022_up
+#print axioms SSV.C05.roundtrip_ss2022_up_multiuser
 #print axioms SSV.C05.roundtrip_ss2022_down
 #print axioms SSV.C05.roundtrip_direct
 #print axioms SSV.C05.max_packet_size_fits_mtu
@@ -340,6 +395,9 @@ end SSV.C05
 #print axioms SSV.C05.roundtrip_history_plain
 #print axioms SSV.C05.roundtrip_history_ss2022
 #print axioms SSV.C05.roundtrip_history_direct
+#print axioms SSV.C05.roundtrip_history_plain_down
+#print axioms SSV.C05.roundtrip_history_ss2022_down
+#print axioms SSV.C05.client_unpacker_refuses_fast_session_change
 #print axioms SSV.C05.resolver_cache_assigned_before_resolve_is_unsound
 #print axioms SSV.C05.resolver_cache_head_refuses
 #print axioms SSV.C05.relay_limit_current
